@@ -11,7 +11,9 @@ BODIES = ["ls -l", "ls  -la   /tmp", "echo --opt=val -x 1e5x a.b/c ..", "echo $H
           "ls $(pwd)", "echo 'a b' \"c\"", "echo a'b c'd", "ls | grep x", "a && b", "a; b", "echo hi > out.txt", "echo hi 2>&1", "sleep 1 &", "cd ..", "x=1 y", "echo é ü",
           "echo 1 2.5 0x1f 08 1_ 1..2", "echo -1 +2 *3", "echo a,b a:b a=b", "ls\t-l", "echo a\nb", "git commit\n-m msg\n--amend", "echo a\n  b", "cp a@(x)b.c dest", "tar czf @(name).tar.gz src", "@$(which python)/bin/x y", "echo ~ ~/x %d ^x", "echo @ a@b", "echo $A$B", "echo $(a b)$(c)", "echo ![x y]",
           "git commit -m 'msg here'", "echo a=$HOME", "echo $HOME:$PATH", "echo *.py **/*.txt", "echo <in >out", "echo a<b", "echo :=", "echo -> =>", "echo // ** <<= >>=",
-          "echo $[inner x]", "echo !(obj y)", "echo print exec match case type _", "a", "a b c d e f", "-", "$X", "@(x)", "@$(y)", "$(z)"]
+          "echo $[inner x]", "echo !(obj y)", "echo print exec match case type _", "a", "a b c d e f", "-", "$X", "@(x)", "@$(y)", "$(z)",
+          # round 5: a multi-line triple-quoted string glued between a prefix and a suffix; an empty subprocess macro before further words
+          'echo a"""x\ny"""b c', "tar --exclude='''p\nq'''.bak -c .", 'echo """x\ny"""b', 'echo a"""x\ny"""', "echo $(sudo!) a b", "echo $(sudo!)  a  b", "echo ![x!] $(ls -l  /tmp)"]
 ALPHABET = "abZ019_-./=:,+%^~*<>|&;@é\U0001d400\u0663 \t\n$"   # incl. a letter and a digit that NFKC / int() would change
 FORM_KEYS = list(oracles2.FORMS)
 
